@@ -444,4 +444,6 @@ def run(ctx: Ctx, tier: str) -> Result:
         res.ok("C05.WIRE", {"frame collector uses": ctxt[0]})
     else:
         res.fail(Finding("C05.WIRE", fc.qname, vs[0], fc.loc(vs[0]), "the frame collector does not pass the action's collection_config to the variable processor (defaults are used): %s" % ctxt))
+    from .common import borrow
+    borrow(ctx, res, tier, "c07", ("C07.CHILD",), "C05.ONCE", "a value that was recorded before is referred to, not expanded again (shared and cyclic data cost no second round of children: the work stays inside the budget)")
     return res
